@@ -24,6 +24,7 @@
 (*                   (DESIGN section 7, D14)                                *)
 (***************************************************************************)
 EXTENDS Integers, Sequences, FiniteSets, TLC, Varint
+SX == INSTANCE SequencesExt      \* SX!FoldLeft is evaluated iteratively by TLC: long sequences decode in linear time
 
 -----------------------------------------------------------------------------
 (* Generic helpers *)
@@ -436,7 +437,7 @@ EncUnknownForm(T, v, st) ==
 
 -----------------------------------------------------------------------------
 (* The reference decoder *)
-RECURSIVE Dec(_, _, _, _, _), DecN(_, _, _, _, _, _, _), DecFlagged(_, _, _, _, _, _),
+RECURSIVE Dec(_, _, _, _, _),
           DecTs(_, _, _, _, _, _, _), DecRecord(_, _, _, _, _, _, _), ReadFields(_, _, _, _, _, _),
           ParseHeader(_, _, _, _, _)
 
@@ -470,19 +471,24 @@ DecDedup(b, p, lim, st) ==
             IF ValidUtf8(s) THEN [ok |-> TRUE, s |-> s, p |-> c.p + c.x, st |-> StoreString(st, s)]
             ELSE DErr("BadUtf8")
 
-\* n elements of type T
+\* n elements of type T (a left fold over 1..n: no recursion depth, no re-evaluation)
 DecN(T, b, p, lim, st, n, acc) ==
-  IF n = 0 THEN [ok |-> TRUE, vs |-> acc, p |-> p, st |-> st]
-  ELSE LET r == Dec(T, b, p, lim, st) IN
-       IF ~r.ok THEN r ELSE DecN(T, b, r.p, lim, r.st, n - 1, Append(acc, r.v))
+  LET step(a, i) == IF ~a.ok THEN a
+                    ELSE LET r == Dec(T, b, a.p, lim, a.st) IN
+                         IF ~r.ok THEN r ELSE [ok |-> TRUE, vs |-> Append(a.vs, r.v), p |-> r.p, st |-> r.st]
+  IN SX!FoldLeft(step, [ok |-> TRUE, vs |-> acc, p |-> p, st |-> st], [i \in 1..n |-> i])
 
-\* flagged items up to the terminator
+\* flagged items up to the terminator: every round consumes at least one byte, so Avail + 1 rounds suffice
 DecFlagged(T, b, p, lim, st, acc) ==
-  IF Avail(p, lim) < 1 THEN DErr("InputEnded")
-  ELSE IF b[p] = 0 THEN [ok |-> TRUE, vs |-> acc, p |-> p + 1, st |-> st]
-  ELSE IF b[p] = 1 THEN LET r == Dec(T, b, p + 1, lim, st) IN
-                        IF ~r.ok THEN r ELSE DecFlagged(T, b, r.p, lim, r.st, Append(acc, r.v))
-  ELSE DErr("BadTag")
+  LET step(a, i) ==
+        IF ~a.ok \/ a.done THEN a
+        ELSE IF Avail(a.p, lim) < 1 THEN DErr("InputEnded")
+        ELSE IF b[a.p] = 0 THEN [a EXCEPT !.done = TRUE, !.p = a.p + 1]
+        ELSE IF b[a.p] = 1 THEN LET r == Dec(T, b, a.p + 1, lim, a.st) IN
+                                IF ~r.ok THEN r ELSE [ok |-> TRUE, done |-> FALSE, vs |-> Append(a.vs, r.v), p |-> r.p, st |-> r.st]
+        ELSE DErr("BadTag")
+      res == SX!FoldLeft(step, [ok |-> TRUE, done |-> FALSE, vs |-> acc, p |-> p, st |-> st], [i \in 1..(Max(Avail(p, lim), 0) + 1) |-> i])
+  IN IF ~res.ok THEN res ELSE [ok |-> TRUE, vs |-> res.vs, p |-> res.p, st |-> res.st]
 
 \* a sequence in either size form: [ok, vs, p, st]
 DecSeq(T, b, p, lim, st) ==
